@@ -263,6 +263,53 @@ def r6_order(ctx, A, rule="C03.R6"):
     ctx.floor(rule, n, 4, what="method calls on range lists")
 
 
+def r4_tokenisation(ctx, A):
+    """the range-spec `r` each number is sliced from is: header value as str -> after the literal `bytes=` -> split at
+    ',' -> leading SP / HTAB trimmed (optional whitespace after commas)"""
+    n = 0
+    for row in A["rows"]:
+        if row["kind"] != "backedge" or not row["all_ok"] or not row["pushes"]:
+            continue
+        any_num = row["info"]["nums"][next(iter(row["info"]["nums"]))]
+        base = any_num["base"]
+        n += 1
+        bad = []
+        o = row["o"]
+        evs = [e for e in o.events if e["k"] == "call"]
+
+        def find(last):
+            return [e for e in evs if (e["callee"].get("path") or "").split("::")[-1] == last]
+        tr = find("trim_start_matches")
+        sp = find("split")
+        pf = find("strip_prefix")
+        ts = find("to_str")
+        nx = [e for e in evs if (e["callee"].get("path") or "") == "std::iter::Iterator::next"]
+        if not tr or repr(base) != repr(("deref", tr[-1]["result"])):
+            bad.append("the range-spec is not the result of trimming a list element")
+        else:
+            arr = tr[-1]["args"][1]
+            chars = sorted(v[1] for _, v in arr[4]) if is_agg(arr) else None
+            if chars != [9, 32]:
+                bad.append("the characters trimmed after a comma are %s, not SP and HTAB" % chars)
+            src = tr[-1]["snap"][0] if tr[-1]["args"][0][0] == "ref" else tr[-1]["args"][0]
+            if not nx or repr(nx[-1]["result"]) not in repr(src):
+                bad.append("the trimmed text is not an element produced by the list iterator")
+        if not sp or sp[-1]["args"][1] != const(44):
+            bad.append("the byte-range-set is not split at ','")
+        elif not pf or repr(pf[-1]["result"]) not in repr(sp[-1]["args"][0]) and repr(pf[-1]["result"]) not in repr(sp[-1]["snap"][0]):
+            bad.append("the text that is split is not what follows the unit prefix")
+        if not pf or pf[-1]["args"][1] != ("str", "bytes="):
+            bad.append("the unit prefix `bytes=` is not stripped")
+        if not ts:
+            bad.append("the header value is not checked to be visible ASCII (to_str)")
+        if bad:
+            ctx.violation("C03.R4", "C03.R4|tokenisation|%s" % bad[0][:40], "range-spec tokenisation: " + "; ".join(bad), where=where(row["pushes"][0]))
+            return
+    if n:
+        ctx.ok("C03.R4", "range-spec = trim_start(SP/HTAB) of an element of split(',') of the value after `bytes=`", detail={"rows": n})
+    ctx.floor("C03.R4.tok", n, 3, what="push rows whose range-spec provenance was checked")
+
+
 def run(ctx):
     A = RP.analyse(ctx)
     ctx.info("range parser = %s (%d paths)" % (A["fn"], len(A["outs"])))
@@ -270,6 +317,7 @@ def run(ctx):
     r2_refinement(ctx, A)
     r3_digits(ctx, A)
     r4_rejections(ctx, A)
+    r4_tokenisation(ctx, A)
     r6_order(ctx, A)
     SM.c03_r5(ctx)
     ctx.assume("u64::from_str accepts an optional leading '+' followed by 1*DIGIT and nothing else (std documentation)")
